@@ -21,7 +21,7 @@ EXHAUSTIVE_SUBDOMAINS = ["atmos on the 10 m altitude grid over [-500, 20000] m"]
 ASSUMPTIONS = ["'tabulated ISA' = analytic hydrostatic ISA with g0, R, lapse rate -6.5 K/km, isothermal above 11 km",
                "round-trip tolerance 1e-8 relative (double precision through two pow() calls)"]
 REQUIRED = ["atmos_grid", "tropopause", "roundtrip", "monotone", "sea_level", "ordering", "distance_uniform",
-            "distance_antipodal", "distance_identical", "distance_cardinal", "bearing", "array_equals_scalar", "types"]
+            "distance_antipodal", "distance_identical", "distance_cardinal", "distance_with_H", "bearing", "array_equals_scalar", "types"]
 
 
 def rel(a, b):
@@ -192,6 +192,16 @@ def m_geo(ctx, case):
             ctx.violation("bearing-out-of-range", pair=P[k], observed=repr(b[1:])[:60])
         elif ba[0] == "ok" and abs(float(ba[1][k]) - float(b[1])) > 1e-9:
             ctx.violation("array-differs-from-scalar", fn="bearing", pair=P[k], array=float(ba[1][k]), scalar=float(b[1]))
+        if k % 5 == 0:
+            # optional flight level argument H: same arc on a sphere of radius r_earth + H
+            Hh = (0, 1000.0, 11000.0, 12500, -300.0)[(k // 5) % 5]
+            rh = call(aero.distance, la1, lo1, la2, lo2, Hh)
+            rk = call(aero.distance, la1, lo1, la2, lo2, H=Hh)
+            ctx.ev(2)
+            eh = isa.haversine(la1, lo1, la2, lo2, r=isa.REARTH + Hh)
+            ctx.hit("distance_with_H")
+            if rh != rk or rh[0] != "ok" or not math.isfinite(float(rh[1])) or abs(float(rh[1]) - eh) > max(0.5, 1e-9 * eh):
+                ctx.violation("distance-with-H-differs-from-haversine", pair=P[k], H=Hh, observed=repr(rh[1:])[:60], expected=eh)
         ctx.nontrivial(("geo", la1, lo1, la2, lo2))
     ctx.hit("distance_" + kind, len(P))
     ctx.hit("bearing")
